@@ -133,6 +133,13 @@ def cfgs(tier):
         for mem in ("MultiportXORMemory", "MultiportXORILVTMemory", "MultiportOneHotILVTMemory"):
             big.append(({"mem": mem, "depth": 2, "width": 1, "rp": 1, "wp": 3, "transparent": "none", "init": [],
                          "wdata": [1]}, {"max_depth": 3}))
+            # a read port that is transparent for only one of the two write ports
+            big.append(({"mem": mem, "depth": 2, "width": 1, "rp": 1, "wp": 2, "transparent": [[0, 1]], "init": [1, 0]},
+                        {"max_depth": 2}))
+        # granules wider than one bit (1 < granularity < width), one write port, transparent read, partial masks
+        for mem in ("MultiportXORILVTMemory", "MultiportOneHotILVTMemory", "MultiReadMemory"):
+            small.append(({"mem": mem, "depth": 2, "width": 4, "gran": 2, "rp": 1, "wp": 1, "transparent": "all", "init": [],
+                           "rows": [0], "wdata": [0, 6, 15], "wen": [1, 2, 3]}, {"max_depth": 3}))
     else:
         for tr in ("none", "all"):
             for init in ([], [1, 0]):
@@ -166,6 +173,10 @@ def cfgs(tier):
             for tr in ("none", "all"):
                 big.append(({"mem": mem, "depth": 2, "width": 2, "gran": 1, "rp": 1, "wp": 2, "transparent": tr, "init": [],
                              "rows": [0], "wdata": [0, 3], "wen": [1, 3]}, {"max_depth": 6, "max_states": 120000}))
+        for mem in ("MultiportXORILVTMemory", "MultiportOneHotILVTMemory", "MultiReadMemory"):
+            for tr in ("none", "all"):
+                small.append(({"mem": mem, "depth": 2, "width": 4, "gran": 2, "rp": 1, "wp": 1, "transparent": tr, "init": [],
+                               "wdata": [0, 6, 9, 15], "wen": [1, 2, 3]}, {"max_depth": 4, "max_states": 120000}))
     return small, big
 
 
